@@ -1163,6 +1163,13 @@ func (l *Ledger) VerifyBlock(block *pb.InternalBlock, logid string) (bool, error
 		return false, nil
 	}
 
+	// TxCount参与了blockid的计算, 交易列表的长度必须与之一致,
+	// 否则merkle树对奇数节点的自我复制会使[a,b,c]和[a,b,c,c]得到相同的merkle root
+	if int(block.TxCount) != len(block.Transactions) {
+		l.xlog.Warn("VerifyBlock tx count error", "logid", logid, "txCount", block.TxCount, "txs", len(block.Transactions))
+		return false, nil
+	}
+
 	errv := VerifyMerkle(block)
 	if errv != nil {
 		l.xlog.Warn("VerifyMerkle error", "logid", logid, "error", errv)
